@@ -38,6 +38,7 @@ def dotList (s : String) : List String := if s == "-" || s.isEmpty then [] else 
 def parseFollow (s : String) : Option Follow :=
   match s.toList with
   | ['i', 'b'] => some .infoRespBad
+  | 'i' :: 'j' :: _ => some .infoRespBad   -- n well-formed answers followed by junk
   | 'i' :: n => (String.ofList n).toNat?.map Follow.infoResp
   | ['g', 't'] => some .gssToken
   | ['g', 'm'] => some .gssMic
